@@ -216,15 +216,10 @@ class SVBackendImpl:
         tol = 0.5 / total_duration. (deep inside pulser Observable class)
         """
         times = observable.evaluation_times
-
-        is_observable_eval_time = (
-            times is not None
-            and self._config.is_time_in_evaluation_times(t, times, tol=tolerance)
-        )
-
-        is_default_eval_time = self._config.is_evaluation_time(t, tol=tolerance)
-
-        return is_observable_eval_time or is_default_eval_time
+        if times is not None:
+            return self._config.is_time_in_evaluation_times(t, times, tol=tolerance)
+        # the config's default times only apply to observables without their own
+        return self._config.is_evaluation_time(t, tol=tolerance)
 
     def _apply_observables(self, step_idx: int) -> None:
         norm_time = self.target_times[step_idx] / self.target_times[-1]
